@@ -241,6 +241,10 @@ fn probe(ps: &mut PState, prop: &str, ctx: &Ctx, rng: &mut Rng, out: &mut Stream
   let mut loc = std::mem::take(&mut ps.loc);
   for h in (ps.last_height + 1)..=tip {
     let block = ctx.node.block_at(h);
+    // inscriptions spent as fee re-enter through the coinbase: its input sats are the subsidy
+    // followed by the fees of the block's transactions in order (first in, first out)
+    let mut fee_acc = ordinals::Height(h).subsidy();
+    let mut to_coinbase: Vec<(InscriptionId, u64)> = Vec::new();
     for tx in block.txdata.iter().skip(1) {
       let txid = tx.compute_txid();
       let geo = tx_geometry(tx, ctx.g);
@@ -254,7 +258,12 @@ fn probe(ps: &mut PState, prop: &str, ctx: &Ctx, rng: &mut Rng, out: &mut Stream
             if i == 0 && *off == 0 {
               prior_at_zero = true;
             }
-            moved.push((*id, output_at(tx, txid, geo.in_base[i] + off)));
+            let abs = geo.in_base[i] + off;
+            let to = output_at(tx, txid, abs);
+            if to.is_none() {
+              to_coinbase.push((*id, fee_acc + (abs - geo.total_out)));
+            }
+            moved.push((*id, to));
           }
         }
       }
@@ -266,7 +275,11 @@ fn probe(ps: &mut PState, prop: &str, ctx: &Ctx, rng: &mut Rng, out: &mut Stream
           clean_first.push(id);
         }
         if !e.unbound {
-          moved.push((id, output_at(tx, txid, e.offset)));
+          let to = output_at(tx, txid, e.offset);
+          if to.is_none() {
+            to_coinbase.push((id, fee_acc + (e.offset - geo.total_out)));
+          }
+          moved.push((id, to));
         }
         if e.landing_input != usize::MAX && e.landing_input > e.env_input {
           dist.hit("geo_lands_in_later_input");
@@ -286,6 +299,16 @@ fn probe(ps: &mut PState, prop: &str, ctx: &Ctx, rng: &mut Rng, out: &mut Stream
       fl.sort();
       fl.dedup();
       floating.insert(txid, fl);
+      fee_acc += geo.in_vals.iter().sum::<u64>().saturating_sub(geo.total_out);
+    }
+    // place the fee-spent inscriptions in the coinbase (beyond its outputs: lost, never spent again)
+    let cb = &block.txdata[0];
+    let cbid = cb.compute_txid();
+    for (id, off) in to_coinbase {
+      if let Some(l) = output_at(cb, cbid, off) {
+        loc.insert(id, l);
+        dist.hit("fee_spent_tracked_into_coinbase");
+      }
     }
   }
 
